@@ -177,15 +177,44 @@ def check_one(ctx, rng, cls, op):
     args, pkey = gen_args(rng, op, is3d)
     if isvec:
         args = args[:-1]      # vectors: rotate(angle) / rotate(axis, angle) / reflect(normal): no origin
-    return evaluate(ctx, cls, op, o, args, pkey)
+    return evaluate(ctx, cls, op, o, args, pkey, warm=rng.random() < 0.5)
 
 
-def evaluate(ctx, cls, op, o, args, pkey=None):
+DERIVED = ('area', 'perimeter', 'length', 'volume', 'is_clockwise', 'is_convex', 'normal', 'centroid', 'center', 'min', 'max',
+           'face_areas', 'face_normals', 'face_centroids', 'is_solid')
+
+
+def derived(o):
+    out = {}
+    for nm in DERIVED:
+        if isinstance(getattr(type(o), nm, None), property):
+            try:
+                out[nm] = getattr(o, nm)
+            except Exception as e:
+                out[nm] = 'raised %s' % type(e).__name__
+    return out
+
+
+def same_value(a, b, scale_):
+    if isinstance(a, bool) or isinstance(b, bool) or isinstance(a, str) or isinstance(b, str) or a is None or b is None:
+        return a == b
+    if isinstance(a, (int, float)) and isinstance(b, (int, float)):
+        return abs(a - b) <= 1e-8 * max(1.0, abs(a), abs(b), scale_)
+    if isinstance(a, (tuple, list)) and isinstance(b, (tuple, list)):
+        return len(a) == len(b) and all(same_value(x, y, scale_) for x, y in zip(a, b))
+    if hasattr(a, 'to_array') and hasattr(b, 'to_array'):
+        return same_value(tuple(a.to_array()), tuple(b.to_array()), scale_)
+    return True
+
+
+def evaluate(ctx, cls, op, o, args, pkey=None, warm=False):
     global _LOOSE
     is3d = cls not in Bd.CLASSES_2D
     isvec = cls in ('Vector2D', 'Vector3D')
     mp, mv, k, inv_args = ref_maps(op, args, is3d, isvec)
-    desc = {'class': cls, 'op': op, 'args': [ser(a) for a in args], 'object': ser(o)}
+    desc = {'class': cls, 'op': op, 'args': [ser(a) for a in args], 'object': ser(o), 'warm': warm}
+    if warm:
+        derived(o)      # the source has answered its derived properties before it is transformed
     try:
         r = getattr(o, op)(*args)
     except Exception as e:
@@ -281,6 +310,18 @@ def evaluate(ctx, cls, op, o, args, pkey=None):
     if bad is None and cls == 'Polyface3D' and o.is_solid:
         if not r.is_solid or r.volume <= 0:
             bad = 'solid no longer outward facing (volume %r)' % (r.volume,)
+    if bad is None and hasattr(r, 'to_dict') and hasattr(type(r), 'from_dict') and not isvec:
+        # the image answers its derived properties like a fresh object built from the image's own defining data
+        try:
+            fresh = type(r).from_dict(r.to_dict())
+            dr, df = derived(r), derived(fresh)
+            for nm in dr:
+                if not same_value(dr[nm], df[nm], float(scale_)):
+                    bad = 'image.%s = %r but an object rebuilt from the image reports %r%s' % (
+                        nm, dr[nm], df[nm], ' (source had answered its properties before the transform)' if warm else '')
+                    break
+        except Exception as e:
+            bad = None
     if bad is None:
         # inverse map returns an equivalent shape
         try:
@@ -327,6 +368,8 @@ def classify(cls, op, o, args, bad):
             return 'angle_gt_2pi'
     if 'raise' in bad:
         return 'raises'
+    if bad.startswith('image.'):
+        return 'derived_' + bad.split(' ')[0][6:] + ('_warm' if 'before the transform' in bad else '')
     if cls in ('Arc2D', 'Arc3D') and op == 'reflect' and 'PRECISION' in bad:
         return 'precision'
     if 'area' in bad or 'volume' in bad or 'length' in bad:
@@ -360,7 +403,7 @@ def replay(ctx, data):
     op = rest.split(':')[0]
     c2 = core.Ctx(ctx.pid, ctx.tier, 0)
     if isinstance(d, dict) and 'object' in d and isinstance(d['object'], dict):
-        evaluate(c2, cls, op, deser(d['object']), [deser(a) for a in d['args']])
+        evaluate(c2, cls, op, deser(d['object']), [deser(a) for a in d['args']], warm=bool(d.get('warm')))
         return any(v.kind == kind for v in c2.violations)
     for _ in range(400):
         check_one(c2, c2.rng, cls, op)
